@@ -10,11 +10,11 @@ pub struct Recorder {
 }
 
 impl Recorder {
-    fn record(&self, name: &str, cred: &Option<s3s::auth::Credentials>) {
+    pub fn record(&self, name: &str, cred: &Option<s3s::auth::Credentials>) {
         let who = cred.as_ref().map_or("anonymous".to_owned(), |c| c.access_key.clone());
         self.log.lock().unwrap().push(format!("{name}@{who}"));
     }
-    fn answer<O: Default>(&self, _name: &str) -> s3s::S3Result<s3s::S3Response<O>> {
+    pub fn answer<O: Default>(&self, _name: &str) -> s3s::S3Result<s3s::S3Response<O>> {
         let mode = self.mode.lock().unwrap().clone();
         if mode == "ok_default" {
             return Ok(s3s::S3Response::new(O::default()));
